@@ -16,6 +16,14 @@ import (
 // exactly when no unwrapped RTX packet was waiting.
 var ErrVerifNoPrimary = errors.New("verif: nothing on the primary stream")
 
+// ErrVerifRTPTooShort is checkAndUpdateTrack's complaint about a read buffer shorter than two bytes.
+var ErrVerifRTPTooShort = errRTPTooShort
+
+// VerifRTXCodecKnown is the MediaEngine VerifRTX registers: a video codec for every payload type 0..127
+// except those ending in binary 111, so that checkAndUpdateTrack can both follow a payload type change of
+// the primary stream and fail to.
+func VerifRTXCodecKnown(pt PayloadType) bool { return pt < 128 && pt%8 != 7 }
+
 // VerifRTXAttrKey is set in the attributes the fake repair interceptor hands over when asked to.
 const VerifRTXAttrKey = "verif_marker"
 
@@ -32,6 +40,8 @@ type VerifRTX struct {
 	track    *TrackRemote
 	feed     chan verifRTXItem
 	idle     chan struct{}
+	primary  chan []byte
+	bind     func(ssrc SSRC) error
 }
 
 // NewVerifRTX builds an RTPReceiver with one track (primary SSRC ssrc, payload type pt, repair SSRC
@@ -40,7 +50,19 @@ type VerifRTX struct {
 func NewVerifRTX(mtu uint, pt PayloadType, ssrc, rtxSSRC SSRC, startImmediately bool) (*VerifRTX, error) {
 	se := SettingEngine{}
 	se.SetReceiveMTU(mtu)
-	api := NewAPI(WithSettingEngine(se))
+	me := &MediaEngine{}
+	for p := PayloadType(0); p < 128; p++ {
+		if !VerifRTXCodecKnown(p) {
+			continue
+		}
+		if err := me.RegisterCodec(RTPCodecParameters{
+			RTPCodecCapability: RTPCodecCapability{MimeType: MimeTypeVP8, ClockRate: 90000},
+			PayloadType:        p,
+		}, RTPCodecTypeVideo); err != nil {
+			return nil, err
+		}
+	}
+	api := NewAPI(WithSettingEngine(se), WithMediaEngine(me), WithInterceptorRegistry(&interceptor.Registry{}))
 	receiver, err := api.NewRTPReceiver(RTPCodecTypeVideo, &DTLSTransport{api: api})
 	if err != nil {
 		return nil, err
@@ -49,19 +71,32 @@ func NewVerifRTX(mtu uint, pt PayloadType, ssrc, rtxSSRC SSRC, startImmediately 
 		receiver: receiver,
 		feed:     make(chan verifRTXItem),
 		idle:     make(chan struct{}),
+		primary:  make(chan []byte, 1024),
 	}
 	receiver.configureReceive(RTPReceiveParameters{Encodings: []RTPDecodingParameters{{
 		RTPCodingParameters: RTPCodingParameters{RID: "rid", SSRC: ssrc, RTX: RTPRtxParameters{SSRC: rtxSSRC}},
 	}}})
 	primary := interceptor.RTPReaderFunc(
-		func(_ []byte, a interceptor.Attributes) (int, interceptor.Attributes, error) {
-			return 0, a, ErrVerifNoPrimary
+		func(b []byte, a interceptor.Attributes) (int, interceptor.Attributes, error) {
+			select {
+			case pkt := <-verif.primary:
+				return copy(b, pkt), a, nil
+			default:
+				return 0, a, ErrVerifNoPrimary
+			}
 		},
 	)
 	params := RTPParameters{Codecs: []RTPCodecParameters{{
 		RTPCodecCapability: RTPCodecCapability{MimeType: MimeTypeVP8},
 		PayloadType:        pt,
 	}}}
+	verif.bind = func(ssrc SSRC) error {
+		_, bindErr := receiver.receiveForRid(
+			"rid", params, &interceptor.StreamInfo{SSRC: uint32(ssrc)}, nil, primary, false, nil, nil, nil,
+		)
+
+		return bindErr
+	}
 	track, err := receiver.receiveForRid(
 		"rid", params, &interceptor.StreamInfo{SSRC: uint32(ssrc)}, nil, primary, false, nil, nil, nil,
 	)
@@ -129,6 +164,22 @@ func (v *VerifRTX) Read(readLen int) ([]byte, interceptor.Attributes, error) {
 	n, a, err := v.track.Read(b)
 
 	return b[:n], a, err
+}
+
+// Primary makes pkt the next packet the primary stream returns (TrackRemote.Read gets it once no
+// unwrapped RTX packet is waiting, and learns the stream's payload type from it: checkAndUpdateTrack).
+func (v *VerifRTX) Primary(pkt []byte) {
+	v.primary <- pkt
+}
+
+// Rebind binds the primary stream of the track again (receiveForRid), now with SSRC ssrc.
+func (v *VerifRTX) Rebind(ssrc SSRC) error {
+	return v.bind(ssrc)
+}
+
+// TrackState is what the repair reader asks the track for: TrackRemote.PayloadType() and SSRC().
+func (v *VerifRTX) TrackState() (PayloadType, SSRC) {
+	return v.track.PayloadType(), v.track.SSRC()
 }
 
 // Stop is RTPReceiver.Stop. The repair reader may leave when it next looks at the receiver's state, so
